@@ -6,7 +6,7 @@ from typing import Any, Callable, TypeVar
 from geneticengine.grammar.decorators import is_builtin
 from geneticengine.grammar.grammar import Grammar
 from geneticengine.solutions.tree import TreeNode
-from geneticengine.grammar.utils import get_arguments
+from geneticengine.grammar.utils import get_arguments, get_generic_parameter, is_annotated
 from geneticengine.grammar.utils import is_abstract
 from geneticengine.grammar.utils import is_terminal
 import dataclasses
@@ -64,7 +64,8 @@ def relabel_nodes(
                 g,
                 isinstance(c, list),
             )
-            abs_adjust = 0 if not is_abstract(t) or not g.expansion_depthing else g.abstract_dist_to_t[t][type(c)]
+            decl = get_generic_parameter(t) if is_annotated(t) else t  # Annotated[Abstract, mh] expands like Abstract
+            abs_adjust = 0 if not is_abstract(decl) or not g.expansion_depthing else g.abstract_dist_to_t[decl][type(c)]
             if isinstance(c, list) and g.expansion_depthing:
                 abs_adjust = 1
             list_adjust = 0 if isinstance(c, list) else 1
